@@ -29,7 +29,8 @@ Section Env.
 Variable cmds : cid -> cmdinfo.
 Variable plan : nat -> wplan.
 
-Definition belongs (p : pkt) (c : cid) : Prop := p_hdr p = tx_hdr (cmds c) \/ rx_hdr (cmds c) = Some (p_hdr p).
+Definition belongs (p : pkt) (c : cid) : Prop :=
+  p_hdr p = tx_hdr (cmds c) \/ (rx_hdr (cmds c) = Some (p_hdr p) \/ null_ok (cmds c) p = true).
 
 (* J1: a future holding a packet holds one of its own command; J3: while a command is in flight, the frame the FSM is
    matching packets against (sent) is the frame of the command whose future it will resolve (curfut); J4: the echo kept
@@ -273,7 +274,7 @@ Proof.
   - destruct (sent (cx w)) as [k|]; [|apply tpre_refl]. destruct (echo (cx w)) as [e|]; [|apply tpre_refl].
     destruct (Nat.eqb (p_hdr p) (tx_hdr (cmds k)) && Nat.eqb (p_src p) (p_src e)); [apply tpre_refl|].
     destruct (rx_hdr (cmds k)) as [h|]; [|apply tpre_refl].
-    destruct (Nat.eqb (p_hdr p) h); [apply set_state_tpre|apply tpre_refl].
+    destruct (null_ok (cmds k) p || Nat.eqb (p_hdr p) h); [apply set_state_tpre|apply tpre_refl].
 Qed.
 
 Lemma caller_start_tpre w c : Rsat (tpre w) (caller_start cmds w c).
@@ -454,7 +455,7 @@ Proof.
     destruct (match rx_hdr (cmds k) with Some h => Nat.eqb (p_hdr p) h && p_dst_ok p | None => false end) eqn:Er.
     + (* the reply arrived before the echo *)
       apply set_state_J_plain; [exact HJ|reflexivity| |discriminate].
-      intros q [= <-] Hs f Hf. right. specialize (B Hs f Hf). rewrite Sk in B. injection B as <-.
+      intros q [= <-] Hs f Hf. right. left. specialize (B Hs f Hf). rewrite Sk in B. injection B as <-.
       destruct (rx_hdr (cmds k)) as [h|]; [|discriminate]. apply andb_prop in Er as (Er & _). apply Nat.eqb_eq in Er. congruence.
     + destruct (negb (Nat.eqb (p_hdr p) (tx_hdr (cmds k)))) eqn:Et; [split; [exact HJ|reflexivity]|].
       apply negb_false_iff, Nat.eqb_eq in Et.
@@ -472,10 +473,10 @@ Proof.
   - destruct (sent (cx w)) as [k|] eqn:Sk; [|exact I]. destruct (echo (cx w)) as [e|]; [|exact I].
     destruct (Nat.eqb (p_hdr p) (tx_hdr (cmds k)) && Nat.eqb (p_src p) (p_src e)); [split; [exact HJ|reflexivity]|].
     destruct (rx_hdr (cmds k)) as [h|] eqn:Eh; [|exact I].
-    destruct (Nat.eqb (p_hdr p) h) eqn:Ep; [|split; [exact HJ|reflexivity]].
-    apply Nat.eqb_eq in Ep.
+    destruct (null_ok (cmds k) p || Nat.eqb (p_hdr p) h) eqn:Ep; [|split; [exact HJ|reflexivity]].
     apply set_state_J_plain; [exact HJ|reflexivity| |discriminate].
-    intros q [= <-] Hs f Hf. right. specialize (B Hs f Hf). rewrite Sk in B. injection B as <-. congruence.
+    intros q [= <-] Hs f Hf. right. specialize (B Hs f Hf). rewrite Sk in B. injection B as <-.
+    apply orb_prop in Ep as [En|Ep]; [right; exact En|left; apply Nat.eqb_eq in Ep; congruence].
 Qed.
 
 Lemma J1_set_fut w c f : J1 w -> (forall p, f <> FRes p) -> J1 (set_fut w c f).
@@ -638,6 +639,24 @@ Theorem result_belongs lifo fuel evs :
 Proof.
   intros w Cw t c p Hin. destruct (run_Good lifo fuel _ (Good_world0 evs) Cw) as (_ & HT).
   unfold T in HT. rewrite Forall_forall in HT. exact (HT _ Hin).
+Qed.
+(* while a reply is awaited, a packet that is neither the awaited header nor a null log entry of the ADDRESSED controller (nor the echo's repeat)
+   changes nothing -- in particular a neighbour controller's null fault-log entry does not complete an RQ|0418 *)
+Lemma foreign_packet_ignored w p k e h :
+  state (cx w) = WantRply -> sent (cx w) = Some k -> echo (cx w) = Some e -> rx_hdr (cmds k) = Some h ->
+  p_hdr p <> h -> null_ok (cmds k) p = false -> pkt_rcvd cmds w p = Ok w.
+Proof.
+  intros S Sk Se Eh Nh Nn. unfold pkt_rcvd. rewrite S, Sk, Se, Eh, Nn.
+  destruct (Nat.eqb (p_hdr p) (tx_hdr (cmds k)) && Nat.eqb (p_src p) (p_src e)); [reflexivity|].
+  destruct (Nat.eqb (p_hdr p) h) eqn:E; [apply Nat.eqb_eq in E; contradiction|reflexivity].
+Qed.
+(* ... and the addressed controller's null entry does (the reply to an RQ|0418 for an empty slot carries index 00) *)
+Lemma own_null_entry_answers w p k e h :
+  state (cx w) = WantRply -> sent (cx w) = Some k -> echo (cx w) = Some e -> rx_hdr (cmds k) = Some h ->
+  p_hdr p <> tx_hdr (cmds k) -> null_ok (cmds k) p = true -> pkt_rcvd cmds w p = set_state w Idle (HRes p).
+Proof.
+  intros S Sk Se Eh Nt Nn. unfold pkt_rcvd. rewrite S, Sk, Se, Eh, Nn.
+  destruct (Nat.eqb (p_hdr p) (tx_hdr (cmds k))) eqn:E; [apply Nat.eqb_eq in E; contradiction|reflexivity].
 Qed.
 End Env.
 
